@@ -114,6 +114,9 @@ int main(int argc, char **argv) {
     { const char *cgf = kv(kvs, "cgfile", ""); if (*cgf) { char *content = unhex(cgf); char fp[PATH_MAX], pp[64]; snprintf(fp, sizeof fp, "%s/fake-cgroup", work); snprintf(pp, sizeof pp, "/proc/%d/cgroup", (int)getpid());
         FILE *cf = fopen(fp, "w"); if (!cf) { perror("fake cgroup"); return 3; } fwrite(content, 1, strlen(content), cf); fclose(cf); chmod(fp, 0644);
         if (unshare(CLONE_NEWNS) || mount("none", "/", NULL, MS_REC | MS_PRIVATE, NULL) || mount(fp, pp, NULL, MS_BIND, NULL)) { perror("bind over /proc/pid/cgroup"); return 3; } } }
+    /* ---- user and group databases: private mount namespace with files from the given directory bound over /etc/passwd and /etc/group */
+    { const char *etc = kv(kvs, "etc", ""); if (*etc) { char a[PATH_MAX], b[PATH_MAX]; snprintf(a, sizeof a, "%s/passwd", etc); snprintf(b, sizeof b, "%s/group", etc);
+        if (unshare(CLONE_NEWNS) || mount("none", "/", NULL, MS_REC | MS_PRIVATE, NULL) || mount(a, "/etc/passwd", NULL, MS_BIND, NULL) || mount(b, "/etc/group", NULL, MS_BIND, NULL)) { perror("bind over /etc/passwd, /etc/group"); return 3; } } }
     /* ---- ids (last: needs privileges for everything above) */
     long r, e, s, rg, eg, sg;
     if (sscanf(kv(kvs, "ids", "0,0,0,0,0,0"), "%ld,%ld,%ld,%ld,%ld,%ld", &r, &e, &s, &rg, &eg, &sg) == 6) {
